@@ -2,19 +2,72 @@
    Statements only; proofs live in Proofs/TypesIntro.v.
    Model: Types/Introspection.v (introspect, ast_from_value); Spec: describe, coerce, matches. *)
 From Coq Require Import List NArith ZArith Bool Permutation String.
-From GQL Require Import Base.Bytes Types.Schema Types.Consistent Types.Introspection Proofs.TypesIntro Proofs.TypesRoundtrip.
+From GQL Require Import Base.Bytes Types.Schema Types.Consistent Types.Literal Types.Introspection
+  Proofs.TypesIntro Proofs.TypesRoundtrip Proofs.TypesNumbers Proofs.TypesLiteral Proofs.TypesDefault.
 Import ListNotations.
 Open Scope string_scope.
 Open Scope N_scope.
 
-(* The printed default literal, coerced against the argument's type, gives back the configured
-   default: for Int, String, ID, Boolean, enums (configured by internal value, printed by name),
-   and lists / non-null wrappers of these to any depth.  (Input-object defaults are judged by the
-   executable Spec on every generated case, not by this theorem.) *)
-Theorem C10_default_literal_partial : forall ts D t v fuel, simple ts t v -> (depth t < fuel)%nat ->
-  exists l, ast_from_value fuel ts t v = Some l /\ coerce fuel ts D t l = Some v.
-Proof. exact default_round_trip. Qed.
-Print Assumptions C10_default_literal_partial.
+(* ===== Default values.  "Every reported default value is a GraphQL literal that, parsed and
+   coerced against the argument's type, gives back the configured default."
+
+   For every well-typed default (wt_default: the boolean predicate of Types/Introspection.v --
+   list values for list types at any depth, declared internal values for enums, maps over declared
+   fields for input objects (nested, recursive types included) that give every field having a
+   default of its own, int32 Ints, finite Floats, valid UTF-8 strings with whatever characters),
+   astFromValue yields a literal l; the text printer.Print makes of l is read back by the
+   library's lexer and parseValueLiteral as l; and valueFromAST of l against the same type is the
+   configured value (same_value: equal, a Go int configured for a Float being the float it denotes). *)
+Theorem C10_default_literal_roundtrip : forall fuel ts D t v, wt_default fuel ts D t v = true ->
+  exists l v', ast_from_value fuel ts t v = Some l
+    /\ parse_lit (print_lit l) = Some l
+    /\ coerce fuel ts D t l = Some v' /\ same_value v v' = true.
+Proof. exact default_literal_roundtrip. Qed.
+Print Assumptions C10_default_literal_roundtrip.
+
+(* print, then lex and parse: for every literal whose leaves are lexemes of the language (numbers
+   that read as one number token, names, valid UTF-8 strings), nested to any depth *)
+Theorem C10_literal_print_parse : forall l, lit_wf l = true -> parse_lit (print_lit l) = Some l.
+Proof. exact parse_print_lit. Qed.
+Print Assumptions C10_literal_print_parse.
+
+(* numbers: what fmt prints for a Go int is one INT token and reads back as the int; what fmt's %v
+   prints for a float64 (fmt_g: %e form for decimal exponents below -4 or at least 6, %f form
+   otherwise, on the shortest digits) is one number token and reads back as the float; an int
+   printed for a Float ("5.0") reads as that int *)
+Theorem C10_number_lexemes :
+  (forall z, num_lexeme_ok (dec_Z z) false = true /\ Z_of_dec (dec_Z z) = z
+             /\ num_lexeme_ok (dec_Z z ++ [46; 48])%list true = true /\ float_of_lexeme (dec_Z z ++ [46; 48])%list = float_of_Z z)
+  /\ (forall neg d r dp, float_ok neg (d :: r) dp = true ->
+        num_lexeme_ok (fmt_g neg (d :: r) dp) (floaty (fmt_g neg (d :: r) dp)) = true
+        /\ float_of_lexeme (fmt_g neg (d :: r) dp) = (neg, d :: r, dp)).
+Proof.
+  split.
+  - intro z. split; [apply dec_Z_int_token|]. split; [apply Z_of_dec_Z|]. split; [apply dec_Z_dot0_float_token|apply float_of_int_dot0].
+  - intros neg d r dp H. pose proof (float_ok_digits neg d r dp H) as Hd.
+    split; [apply (fmt_g_token neg (d :: r) dp Hd)|apply (fmt_g_read neg (d :: r) dp Hd)].
+Qed.
+Print Assumptions C10_number_lexemes.
+
+(* The round trip with default values in it: the description the resolvers report (introspect: the
+   defaultValue strings printed from astFromValue's literals) is an exact description of the schema
+   by the Spec (describes: every clause of the description, and every reported defaultValue parsed
+   and coerced against its type gives back the configured default), for every schema whose
+   configured defaults are well typed. *)
+Theorem C10_roundtrip_defaults : forall V D, description_wt (v_types V) D (describe V D) = true ->
+  describes V D (introspect V D) = true.
+Proof. intros V D H. exact (model_exact true V D H). Qed.
+Print Assumptions C10_roundtrip_defaults.
+
+(* ... and an input value without a configured default reports none *)
+Theorem C10_roundtrip_no_default : forall ts n t ad,
+  (forall a, ad = Some a -> ad_default a = None) ->
+  di_default (resolve_input ts (describe_input ts n t ad)) = DNone.
+Proof.
+  intros ts n t [a|] H; [|reflexivity]. unfold describe_input, resolve_input. cbn [di_default].
+  rewrite (H a eq_refl). reflexivity.
+Qed.
+Print Assumptions C10_roundtrip_no_default.
 
 (* The description lists exactly the types of the schema's type map, each once. *)
 Theorem C10_types_each_once_partial : forall V D,
@@ -141,24 +194,31 @@ Print Assumptions C10_roundtrip_roots.
 
 (* ---------- non-vacuity ---------- *)
 Definition ex_types : list vtype :=
-  [ VT (s "Int") 1 VScalar; VT (s "String") 3 VScalar; VT (s "Color") 100 (VEnum [s "BLUE"; s "GREEN"; s "RED"]) ].
+  [ VT (s "Int") 1 VScalar; VT (s "Float") 2 VScalar; VT (s "String") 3 VScalar;
+    VT (s "Color") 100 (VEnum [s "BLUE"; s "GREEN"; s "RED"]);
+    VT (s "In") 101 (VInput [(s "es", TNonNull (TList (TNonNull (TNamed 100)))); (s "f", TNamed 2);
+                             (s "n", TNamed 1); (s "s", TNamed 3); (s "self", TNamed 101)]) ].
+
+(* an input object holding a list of enums, a float that prints in exponent form, a string that
+   needs escapes (quote, backslash, newline, e-acute, DEL) and a nested object *)
+Definition ex_default : value :=
+  VObj [ (s "es", VList [VInt 3; VInt 1]); (s "f", VFloat false [1; 5] (-6));
+         (s "s", VStr [113; 34; 92; 10; 195; 169; 127]);
+         (s "self", VObj [ (s "es", VList []); (s "n", VInt (-7)) ]) ].
 
 Example C10_nonvacuous_default :
-  simple ex_types (TNonNull (TList (TNonNull (TNamed 100)))) (VList [VInt 3; VInt 1])
-  /\ ast_from_value 8 ex_types (TNonNull (TList (TNonNull (TNamed 100)))) (VList [VInt 3; VInt 1])
-     = Some (LList [LEnum (s "RED"); LEnum (s "BLUE")])
-  /\ coerce 8 ex_types (Decor [] []) (TNonNull (TList (TNonNull (TNamed 100)))) (LList [LEnum (s "RED"); LEnum (s "BLUE")])
-     = Some (VList [VInt 3; VInt 1]).
-Proof.
-  split; [|split; vm_compute; reflexivity].
-  simpl. repeat constructor; exists (VT (s "Color") 100 (VEnum [s "BLUE"; s "GREEN"; s "RED"]));
-    (split; [reflexivity|]); simpl; (split; [repeat constructor; simpl; intuition discriminate|]);
-    (split; [reflexivity|]); eexists; reflexivity.
-Qed.
+  wt_default 8 ex_types (Decor [] []) (TNonNull (TNamed 101)) ex_default = true
+  /\ option_map print_lit (ast_from_value 8 ex_types (TNonNull (TNamed 101)) ex_default)
+     = Some (of_string "{es: [RED, BLUE], f: 1.5e-07, s: ""q\""\\\n" ++ [195; 169] ++ of_string "\u007F"", self: {es: [], n: -7}}")%list
+  /\ match ast_from_value 8 ex_types (TNonNull (TNamed 101)) ex_default with
+     | Some l => parse_lit (print_lit l) = Some l /\ coerce 8 ex_types (Decor [] []) (TNonNull (TNamed 101)) l = Some ex_default
+     | None => False
+     end.
+Proof. split; [vm_compute; reflexivity|]. split; [vm_compute; reflexivity|]. vm_compute. split; reflexivity. Qed.
 
-(* an input-object default and the literal "{a: 1}" *)
-Example C10_nonvacuous_object :
-  let ts := [ VT (s "Int") 1 VScalar; VT (s "In") 100 (VInput [(s "a", TNamed 1); (s "b", TList (TNamed 1))]) ] in
-  ast_from_value 8 ts (TNamed 100) (VObj [(s "a", VInt 1)]) = Some (LObj [(s "a", LInt 1)])
-  /\ coerce 8 ts (Decor [] []) (TNamed 100) (LObj [(s "a", LInt 1)]) = Some (VObj [(s "a", VInt 1)]).
+(* a default that is not well typed: a list with a null element has no literal in this edition
+   (the element is dropped from the printed list) *)
+Example C10_nonvacuous_illtyped :
+  wt_default 8 ex_types (Decor [] []) (TList (TNamed 1)) (VList [VInt 1; VNull; VInt 2]) = false
+  /\ option_map print_lit (ast_from_value 8 ex_types (TList (TNamed 1)) (VList [VInt 1; VNull; VInt 2])) = Some (of_string "[1, 2]").
 Proof. split; vm_compute; reflexivity. Qed.
